@@ -131,6 +131,8 @@ module N :
 
   val mul : n -> n -> n
 
+  val compare : n -> n -> comparison
+
   val to_nat : n -> nat
 
   val of_nat : nat -> n
@@ -197,6 +199,8 @@ val zeq_bool : z -> z -> bool
 
 val hd : 'a1 -> 'a1 list -> 'a1
 
+val tl : 'a1 list -> 'a1 list
+
 val nth : nat -> 'a1 list -> 'a1 -> 'a1
 
 val nth_error : 'a1 list -> nat -> 'a1 option
@@ -222,6 +226,8 @@ val filter : ('a1 -> bool) -> 'a1 list -> 'a1 list
 val find : ('a1 -> bool) -> 'a1 list -> 'a1 option
 
 val combine : 'a1 list -> 'a2 list -> ('a1 * 'a2) list
+
+val list_prod : 'a1 list -> 'a2 list -> ('a1 * 'a2) list
 
 val firstn : nat -> 'a1 list -> 'a1 list
 
@@ -256,11 +262,19 @@ val n_of_ascii : ascii -> n
 
 val nat_of_ascii : ascii -> nat
 
+val compare0 : ascii -> ascii -> comparison
+
 type string =
 | EmptyString
 | String of ascii * string
 
 val eqb1 : string -> string -> bool
+
+val compare1 : string -> string -> comparison
+
+val ltb0 : string -> string -> bool
+
+val leb0 : string -> string -> bool
 
 val append : string -> string -> string
 
@@ -318,6 +332,8 @@ val getZ : v -> z
 val getS : v -> string
 
 val getL : v -> v list
+
+val getB : v -> bool
 
 val getQ : v -> q
 
@@ -515,6 +531,8 @@ val dockq_formula : q -> q -> q -> q -> q -> q
 val col_src : (string * string) list
 
 val delimiter_src : (string * (nat * nat)) list
+
+val backbone_src : string list
 
 val sql_limit_src : z
 
@@ -1175,6 +1193,740 @@ val run_op : engine -> db -> v -> db * v
 val run_ops : engine -> db -> v list -> v list
 
 val run_sql : string -> v list -> v option
+
+val contact_test_src : q -> q -> bool
+
+val contact_H_char_src : string
+
+val contact_cutoff_default_src : q
+
+val contact_chain1_default_src : string
+
+val contact_chain2_default_src : string
+
+val contact_flag_defaults_src : (string * bool) list
+
+val residues_cutoff_default_src : q
+
+val residues_flag_defaults_src : (string * bool) list
+
+val fast_prefix_src : string
+
+val fast_chain_col_src : nat
+
+val fast_chain_alt_col_src : nat
+
+val fast_resSeq_src : nat * nat
+
+val fast_resName_src : nat * nat
+
+val fast_name_src : nat * nat
+
+val fast_x_src : nat * nat
+
+val fast_y_src : nat * nat
+
+val fast_z_src : nat * nat
+
+val fast_H_char_src : string
+
+val fnat_fast_test_src : q -> q -> bool
+
+val fnat_fast_cutoff_default_src : q
+
+val fnat_fast_digits_src : nat
+
+val clash_cutoff_src : q
+
+val clash_excludeH_src : bool
+
+val clash_only_backbone_src : bool
+
+val clash_chain1_default_src : string
+
+val clash_chain2_default_src : string
+
+val pairs_ref_excludeH_src : bool
+
+val pairs_ref_only_backbone_src : bool
+
+val pairs_ref_cutoff_default_src : q
+
+val fnat_sql_excludeH_src : bool
+
+val fnat_sql_only_backbone_src : bool
+
+val fnat_sql_fix_chainID_src : bool
+
+val fnat_sql_cutoff_default_src : q
+
+val fnat_sql_digits_src : nat
+
+type atom = { idx : z; chain : string; resName : string; resSeq : z;
+              name : string; ax : q; ay : q; az : q }
+
+type structure = atom list
+
+val is_nil : 'a1 list -> bool
+
+val sorted_set_Z : z list -> z list
+
+val sorted_set_str : string list -> string list
+
+val dget : ('a1 -> 'a1 -> bool) -> 'a1 -> ('a1 * 'a2) list -> 'a2 option
+
+val dupd :
+  ('a1 -> 'a1 -> bool) -> 'a1 -> ('a2 option -> 'a2) -> ('a1 * 'a2) list ->
+  ('a1 * 'a2) list
+
+val dext :
+  ('a1 -> 'a1 -> bool) -> 'a1 -> 'a2 list -> ('a1 * 'a2 list) list ->
+  ('a1 * 'a2 list) list
+
+val combinations2 : 'a1 list -> ('a1 * 'a1) list
+
+type res3 = (string * z) * string
+
+val res3_of : atom -> res3
+
+val resk_of : atom -> (string * string) * z
+
+val res3_eqb : res3 -> res3 -> bool
+
+val resk_eqb : ((string * string) * z) -> ((string * string) * z) -> bool
+
+val res3_leb : res3 -> res3 -> bool
+
+val sorted_set_res3 : res3 list -> res3 list
+
+val get_chains : structure -> string list
+
+val chain_atoms : structure -> string -> atom list
+
+val rows_by_idx : structure -> z list -> atom list
+
+val residue_atoms : structure -> ((string * string) * z) -> atom list
+
+val is_bb : string -> bool
+
+val is_H : string -> bool
+
+type cdict = (string * z list) list
+
+type pmap = (z * z list) list
+
+val keep2 : bool -> bool -> atom -> bool
+
+val atom_step :
+  (atom -> atom -> bool) -> bool -> bool -> string -> string -> atom list ->
+  (cdict * pmap) -> atom -> cdict * pmap
+
+val pair_step :
+  (atom -> atom -> bool) -> bool -> bool -> structure -> (cdict * pmap) ->
+  (string * string) -> cdict * pmap
+
+val uniques : string list -> cdict -> cdict res
+
+val extend_to_residue : bool -> structure -> z list -> z list
+
+val extend_all : bool -> structure -> string list -> cdict -> cdict res
+
+val get_contact_atoms :
+  (atom -> atom -> bool) -> bool -> bool -> structure -> bool -> string ->
+  string -> bool -> (cdict * pmap) res
+
+val add_res : res3 list -> res3 -> res3 list
+
+val respair_step :
+  structure -> (res3 * res3 list) list res -> (z * z list) -> (res3 * res3
+  list) list res
+
+val get_contact_residue_pairs :
+  (atom -> atom -> bool) -> bool -> bool -> structure -> bool -> string ->
+  string -> (res3 * res3 list) list res
+
+val get_contact_residues :
+  (atom -> atom -> bool) -> bool -> bool -> structure -> bool -> string ->
+  string -> (string * res3 list) list res
+
+val qsub_x : q -> q -> q
+
+val qadd_x : q -> q -> q
+
+val dist2 : atom -> atom -> q
+
+val closeQ : q -> atom -> atom -> bool
+
+val close_fastQ : q -> atom -> atom -> bool
+
+val compute_residue_pairs_ref : q -> structure -> (res3 * res3 list) list res
+
+val slice2 : (nat * nat) -> string -> string
+
+val py_int : string -> z res
+
+val py_float : string -> q res
+
+val fast_read_line : z -> string -> atom res
+
+val fast_read_aux : z -> string list -> atom list res
+
+val fast_read : string list -> atom list res
+
+val fast_is_H : string -> bool
+
+val residue_xyz : atom list -> (res3 * atom list) list
+
+val fnat_count_B :
+  q -> (res3 * atom list) list -> atom list -> (z * z) res -> res3 -> (z * z)
+  res
+
+val fnat_count_A :
+  q -> (res3 * atom list) list -> (z * z) res -> (res3 * res3 list) ->
+  (z * z) res
+
+val py_ratio_round : nat -> z -> z -> q res
+
+val compute_fnat_fast : q -> structure -> string list -> q res
+
+val ascii_uppercase : string list
+
+val index_of1 : string -> string list -> nat
+
+val set_chain : atom -> string -> atom
+
+val fix_chainID : structure -> structure res
+
+val flat_pairs : (res3 * res3 list) list -> (res3 * res3) list
+
+val respair_eqb : (res3 * res3) -> (res3 * res3) -> bool
+
+val compute_fnat_pdb2sql : q -> structure -> structure -> q res
+
+val compute_clashes : structure -> string -> string -> z res
+
+val backbone_names : string list
+
+val is_backbone : atom -> bool
+
+val is_hydrogen : atom -> bool
+
+val heavy : atom -> bool
+
+val passes : bool -> bool -> atom -> bool
+
+val sqdist_x : atom -> atom -> q
+
+val withinb : q -> atom -> atom -> bool
+
+val closerb : q -> atom -> atom -> bool
+
+val same_residue : atom -> atom -> bool
+
+val after : string -> string list -> string list
+
+val inb : string -> string list -> bool
+
+val contact_atomb :
+  (atom -> atom -> bool) -> bool -> bool -> structure -> string list ->
+  string -> atom -> bool
+
+val spec_atoms :
+  (atom -> atom -> bool) -> bool -> bool -> structure -> string list ->
+  string -> z list
+
+val spec_atoms_dict :
+  (atom -> atom -> bool) -> bool -> bool -> structure -> string list ->
+  (string * z list) list
+
+val partnerb :
+  (atom -> atom -> bool) -> bool -> bool -> string list -> atom -> atom ->
+  bool
+
+val partners :
+  (atom -> atom -> bool) -> bool -> bool -> structure -> string list -> atom
+  -> z list
+
+val spec_pairs :
+  (atom -> atom -> bool) -> bool -> bool -> structure -> string list ->
+  (z * z list) list
+
+val res_contactb : (atom -> atom -> bool) -> structure -> res3 -> res3 -> bool
+
+val selected : structure -> z list -> atom list
+
+val res3_le : res3 -> res3 -> bool
+
+val distinct_sorted : res3 list -> res3 list
+
+val project_atoms : structure -> z list -> res3 list
+
+val project_dict :
+  structure -> (string * z list) list -> (string * res3 list) list
+
+val project_pairs : structure -> (z * z list) list -> (res3 * res3 list) list
+
+val in_closureb : structure -> bool -> z list -> atom -> bool
+
+val closure : structure -> bool -> z list -> z list
+
+val closure_dict :
+  structure -> bool -> (string * z list) list -> (string * z list) list
+
+val distinct_chains : structure -> string list
+
+val ref_contacts :
+  (atom -> atom -> bool) -> structure -> string -> string -> (res3 * res3)
+  list
+
+val preserved :
+  (atom -> atom -> bool) -> structure -> structure -> string -> string ->
+  (res3 * res3) list
+
+val fnat_spec : (atom -> atom -> bool) -> structure -> structure -> q option
+
+val reported : q -> q
+
+val clash_pairs : structure -> string -> string -> (atom * atom) list
+
+val clash_spec : structure -> string -> string -> z
+
+val arg : nat -> v list -> v
+
+val atom_of_V : v -> atom
+
+val struct_of_V : v -> structure
+
+val v_of_Zs : z list -> v
+
+val v_of_res3 : res3 -> v
+
+val v_of_cdict : (string * z list) list -> v
+
+val v_of_pmap : (z * z list) list -> v
+
+val v_of_resdict : (string * res3 list) list -> v
+
+val v_of_respairs : (res3 * res3 list) list -> v
+
+val cdict_of_V : v -> (string * z list) list
+
+val pmap_of_V : v -> (z * z list) list
+
+val vresQ : q res -> v
+
+val in_model : structure -> bool
+
+val guard : structure list -> v -> v
+
+val run_contact : string -> v list -> v option
+
+type 't num = { nadd : ('t -> 't -> 't); nsub : ('t -> 't -> 't);
+                nmul : ('t -> 't -> 't); ndiv : ('t -> 't -> 't);
+                nopp : ('t -> 't); nofZ : (z -> 't); nltb : ('t -> 't -> bool) }
+
+val numQ : q num
+
+type 't vec3 = { vx : 't; vy : 't; vz : 't }
+
+type 't mat3 = { m00 : 't; m01 : 't; m02 : 't; m10 : 't; m11 : 't; m12 : 
+                 't; m20 : 't; m21 : 't; m22 : 't }
+
+type 't vec4 = { w0 : 't; w1 : 't; w2 : 't; w3 : 't }
+
+type 't mat4 = { f00 : 't; f01 : 't; f02 : 't; f03 : 't; f10 : 't; f11 : 
+                 't; f12 : 't; f13 : 't; f20 : 't; f21 : 't; f22 : 't;
+                 f23 : 't; f30 : 't; f31 : 't; f32 : 't; f33 : 't }
+
+val n0 : 'a1 num -> 'a1
+
+val n1 : 'a1 num -> 'a1
+
+val nabs : 'a1 num -> 'a1 -> 'a1
+
+val vadd0 : 'a1 num -> 'a1 vec3 -> 'a1 vec3 -> 'a1 vec3
+
+val vsub0 : 'a1 num -> 'a1 vec3 -> 'a1 vec3 -> 'a1 vec3
+
+val vopp : 'a1 num -> 'a1 vec3 -> 'a1 vec3
+
+val vscale0 : 'a1 num -> 'a1 -> 'a1 vec3 -> 'a1 vec3
+
+val vdivs : 'a1 num -> 'a1 vec3 -> 'a1 -> 'a1 vec3
+
+val vzero : 'a1 num -> 'a1 vec3
+
+val vabs : 'a1 num -> 'a1 vec3 -> 'a1 vec3
+
+val dot : 'a1 num -> 'a1 vec3 -> 'a1 vec3 -> 'a1
+
+val norm2 : 'a1 num -> 'a1 vec3 -> 'a1
+
+val cross : 'a1 num -> 'a1 vec3 -> 'a1 vec3 -> 'a1 vec3
+
+val triple : 'a1 num -> 'a1 vec3 -> 'a1 vec3 -> 'a1 vec3 -> 'a1
+
+val vany_gt : 'a1 num -> 'a1 vec3 -> 'a1 -> bool
+
+val meye : 'a1 num -> 'a1 mat3
+
+val mzero : 'a1 num -> 'a1 mat3
+
+val mtrans : 'a1 mat3 -> 'a1 mat3
+
+val mrow0 : 'a1 mat3 -> 'a1 vec3
+
+val mrow1 : 'a1 mat3 -> 'a1 vec3
+
+val mrow2 : 'a1 mat3 -> 'a1 vec3
+
+val mcol0 : 'a1 mat3 -> 'a1 vec3
+
+val mcol1 : 'a1 mat3 -> 'a1 vec3
+
+val mcol2 : 'a1 mat3 -> 'a1 vec3
+
+val mcol : 'a1 mat3 -> nat -> 'a1 vec3
+
+val mvmul : 'a1 num -> 'a1 mat3 -> 'a1 vec3 -> 'a1 vec3
+
+val mmul : 'a1 num -> 'a1 mat3 -> 'a1 mat3 -> 'a1 mat3
+
+val madd : 'a1 num -> 'a1 mat3 -> 'a1 mat3 -> 'a1 mat3
+
+val mdivs : 'a1 num -> 'a1 mat3 -> 'a1 -> 'a1 mat3
+
+val mscale : 'a1 num -> 'a1 -> 'a1 mat3 -> 'a1 mat3
+
+val mtrace : 'a1 num -> 'a1 mat3 -> 'a1
+
+val mdet : 'a1 num -> 'a1 mat3 -> 'a1
+
+val mset : 'a1 mat3 -> nat -> nat -> 'a1 -> 'a1 mat3
+
+val outer : 'a1 num -> 'a1 vec3 -> 'a1 vec3 -> 'a1 mat3
+
+val vsum0 : 'a1 num -> 'a1 vec3 list -> 'a1 vec3
+
+val nlen : 'a1 num -> 'a1 vec3 list -> 'a1
+
+val mean0 : 'a1 num -> 'a1 vec3 list -> 'a1 vec3
+
+val ptq : 'a1 num -> 'a1 vec3 list -> 'a1 vec3 list -> 'a1 mat3
+
+val dot4 : 'a1 num -> 'a1 vec4 -> 'a1 vec4 -> 'a1
+
+val m4row : 'a1 mat4 -> nat -> 'a1 vec4
+
+val m4col : 'a1 mat4 -> nat -> 'a1 vec4
+
+val m4vmul : 'a1 num -> 'a1 mat4 -> 'a1 vec4 -> 'a1 vec4
+
+val quadform4 : 'a1 num -> 'a1 mat4 -> 'a1 vec4 -> 'a1
+
+val argmax_aux : 'a1 num -> 'a1 -> nat -> nat -> 'a1 list -> nat
+
+val argmax : 'a1 num -> 'a1 list -> nat
+
+val argmin_aux : 'a1 num -> 'a1 -> nat -> nat -> 'a1 list -> nat
+
+val argmin : 'a1 num -> 'a1 list -> nat
+
+val quarter_turn : 'a1 num -> ('a1 * 'a1) -> 'a1 * 'a1
+
+val ang_cs : 'a1 num -> z -> bool -> ('a1 * 'a1) -> 'a1 * 'a1
+
+type angvar =
+| APhi
+| ATheta
+
+type angexpr = { ae_k : z; ae_neg : bool; ae_var : angvar }
+
+type kernel =
+| KKabsch
+| KQuaternion
+
+val rodrigues_src : 'a1 num -> 'a1 -> 'a1 -> 'a1 -> 'a1 -> 'a1 -> 'a1 mat3
+
+val euler_rx_src : 'a1 num -> 'a1 -> 'a1 -> 'a1 mat3
+
+val euler_ry_src : 'a1 num -> 'a1 -> 'a1 -> 'a1 mat3
+
+val euler_rz_src : 'a1 num -> 'a1 -> 'a1 -> 'a1 mat3
+
+val euler_src : 'a1 num -> 'a1 -> 'a1 -> 'a1 -> 'a1 -> 'a1 -> 'a1 -> 'a1 mat3
+
+val rotate_default_center_src : 'a1 num -> 'a1 vec3 list -> 'a1 vec3
+
+val rotate_bad_center_exc_src : string
+
+val rotate_apply_src :
+  'a1 num -> 'a1 vec3 list -> 'a1 mat3 -> 'a1 vec3 -> 'a1 vec3 list
+
+val translation_src : 'a1 num -> 'a1 vec3 list -> 'a1 vec3 -> 'a1 vec3 list
+
+val rand_theta_src : 'a1 num -> 'a1 -> 'a1 -> 'a1 -> 'a1
+
+val rand_cosphi_src : 'a1 num -> 'a1 -> 'a1 -> 'a1 -> 'a1
+
+val rand_axis_src : 'a1 num -> 'a1 -> 'a1 -> 'a1 -> 'a1 -> 'a1 vec3
+
+val rand_angle_src : 'a1 num -> 'a1 -> 'a1 -> 'a1
+
+val centre_eps_src : 'a1 num -> 'a1
+
+val kabsch_uncentred_src : 'a1 num -> 'a1 vec3 list -> 'a1 vec3 list -> bool
+
+val kabsch_cov_src : 'a1 num -> 'a1 vec3 list -> 'a1 vec3 list -> 'a1 mat3
+
+val kabsch_post_src : 'a1 num -> 'a1 mat3 -> 'a1 mat3 -> 'a1 mat3
+
+val quat_centre_eps_src : 'a1 num -> 'a1
+
+val quat_uncentred_src : 'a1 num -> 'a1 vec3 list -> 'a1 vec3 list -> bool
+
+val quat_corr_src : 'a1 num -> 'a1 vec3 list -> 'a1 vec3 list -> 'a1 mat3
+
+val quat_F_src : 'a1 num -> 'a1 mat3 -> 'a1 mat4
+
+val quat_pick_src : 'a1 num -> 'a1 list -> nat
+
+val quat_rot_src : 'a1 num -> 'a1 vec4 -> 'a1 mat3
+
+val rotmat_dispatch_src : (string * kernel) list
+
+val trans_vect_src : 'a1 num -> 'a1 vec3 list -> 'a1 vec3
+
+val sup_centre_src : 'a1 num -> 'a1 vec3 list -> 'a1 vec3 list
+
+val sup_apply_src :
+  'a1 num -> 'a1 vec3 list -> 'a1 vec3 list -> 'a1 vec3 list -> 'a1 mat3 ->
+  'a1 vec3 list
+
+val align_table_src : (string * (((z * z) * z) * angexpr) list) list
+
+val plane_axis_src : (string * string) list
+
+val pca_pick_max_src : 'a1 num -> 'a1 list -> nat
+
+val pca_pick_min_src : 'a1 num -> 'a1 list -> nat
+
+val assoc_str : string -> (string * 'a1) list -> 'a1 option
+
+val lower_ascii : ascii -> ascii
+
+val lower0 : string -> string
+
+val set_nth0 : nat -> 'a1 -> 'a1 list -> 'a1 list
+
+val rotate :
+  'a1 num -> 'a1 vec3 list -> 'a1 mat3 -> 'a1 vec3 option -> 'a1 vec3 list res
+
+val rot_xyz_around_axis :
+  'a1 num -> 'a1 vec3 list -> 'a1 vec3 -> 'a1 -> 'a1 -> 'a1 vec3 option ->
+  'a1 vec3 list res
+
+val rotation_euler :
+  'a1 num -> 'a1 vec3 list -> 'a1 -> 'a1 -> 'a1 -> 'a1 -> 'a1 -> 'a1 -> 'a1
+  vec3 option -> 'a1 vec3 list res
+
+val translate : 'a1 num -> 'a1 vec3 list -> 'a1 vec3 -> 'a1 vec3 list res
+
+val read_sel : 'a1 num -> ('a2 * 'a1 vec3) list -> nat list -> 'a1 vec3 list
+
+val write_row :
+  ('a2 * 'a1 vec3) list -> nat -> 'a1 vec3 -> ('a2 * 'a1 vec3) list
+
+val write_sel :
+  ('a2 * 'a1 vec3) list -> nat list -> 'a1 vec3 list -> ('a2 * 'a1 vec3) list
+
+type 't op0 =
+| OTranslate of 't vec3
+| ORotAxis of 't vec3 * 't * 't
+| ORotEuler of 't * 't * 't * 't * 't * 't
+| ORotMat of 't mat3
+
+val op_fun : 'a1 num -> 'a1 op0 -> 'a1 vec3 list -> 'a1 vec3 list res
+
+val db_apply :
+  'a1 num -> ('a2 * 'a1 vec3) list -> nat list -> 'a1 op0 -> ('a2 * 'a1 vec3)
+  list res
+
+val db_history :
+  'a1 num -> ('a2 * 'a1 vec3) list -> (nat list * 'a1 op0) list -> string
+  list * ('a2 * 'a1 vec3) list
+
+val rand_axis_angle :
+  'a1 num -> 'a1 -> 'a1 -> 'a1 -> 'a1 -> 'a1 -> 'a1 -> 'a1 -> 'a1 vec3 * 'a1
+
+val kabsch :
+  'a1 num -> ('a1 mat3 -> ('a1 mat3 * 'a1 vec3) * 'a1 mat3) -> 'a1 vec3 list
+  -> 'a1 vec3 list -> 'a1 mat3 res
+
+val quaternion :
+  'a1 num -> ('a1 mat4 -> 'a1 list * 'a1 mat4) -> 'a1 vec3 list -> 'a1 vec3
+  list -> 'a1 mat3 res
+
+val get_rotation_matrix :
+  'a1 num -> ('a1 mat3 -> ('a1 mat3 * 'a1 vec3) * 'a1 mat3) -> ('a1 mat4 ->
+  'a1 list * 'a1 mat4) -> string -> 'a1 vec3 list -> 'a1 vec3 list -> 'a1
+  mat3 res
+
+val superpose_selection0 :
+  'a1 num -> ('a1 vec3 list -> 'a1 vec3 list -> 'a1 mat3 res) -> 'a1 vec3
+  list -> 'a1 vec3 list -> 'a1 vec3 list -> 'a1 vec3 list res
+
+val scatter : 'a1 num -> 'a1 vec3 list -> 'a1 mat3
+
+val sample_cov : 'a1 num -> 'a1 vec3 list -> 'a1 mat3
+
+val step_cs : 'a1 num -> angexpr -> 'a1 -> 'a1 -> 'a1 -> 'a1 -> 'a1 * 'a1
+
+val zvec : 'a1 num -> ((z * z) * z) -> 'a1 vec3
+
+val align_steps :
+  'a1 num -> (((z * z) * z) * angexpr) list -> 'a1 -> 'a1 -> 'a1 -> 'a1 ->
+  'a1 vec3 list -> 'a1 vec3 list res
+
+val align_along_axis :
+  'a1 num -> 'a1 vec3 list -> string -> 'a1 -> 'a1 -> 'a1 -> 'a1 -> 'a1 vec3
+  list res
+
+val align_pca_vect :
+  'a1 num -> ('a2 * 'a1 vec3) list -> string -> 'a1 -> 'a1 -> 'a1 -> 'a1 ->
+  ('a2 * 'a1 vec3) list res
+
+val pca_vect : 'a1 num -> bool -> 'a1 list -> 'a1 mat3 -> 'a1 vec3
+
+val plane_axis : string -> string res
+
+val spec_rot_point :
+  'a1 num -> 'a1 vec3 -> 'a1 -> 'a1 -> 'a1 vec3 -> 'a1 vec3 -> 'a1 vec3
+
+val spec_rot_x : 'a1 num -> 'a1 -> 'a1 -> 'a1 vec3 -> 'a1 vec3
+
+val spec_rot_y : 'a1 num -> 'a1 -> 'a1 -> 'a1 vec3 -> 'a1 vec3
+
+val spec_rot_z : 'a1 num -> 'a1 -> 'a1 -> 'a1 vec3 -> 'a1 vec3
+
+val spec_euler_point :
+  'a1 num -> 'a1 -> 'a1 -> 'a1 -> 'a1 -> 'a1 -> 'a1 -> 'a1 vec3 -> 'a1 vec3
+  -> 'a1 vec3
+
+val spec_mat_point : 'a1 num -> 'a1 mat3 -> 'a1 vec3 -> 'a1 vec3 -> 'a1 vec3
+
+type 't sop =
+| STranslate of 't vec3
+| SRotAxis of 't vec3 * 't * 't
+| SRotEuler of 't * 't * 't * 't * 't * 't
+| SRotMat of 't mat3
+
+val sop_point : 'a1 num -> 'a1 sop -> 'a1 vec3 -> 'a1 vec3 -> 'a1 vec3
+
+val memb : nat -> nat list -> bool
+
+val select_rows : nat -> nat list -> ('a2 * 'a1 vec3) list -> 'a1 vec3 list
+
+val map_selected :
+  ('a1 vec3 -> 'a1 vec3) -> nat -> nat list -> ('a2 * 'a1 vec3) list ->
+  ('a2 * 'a1 vec3) list
+
+val spec_db_apply :
+  'a1 num -> ('a2 * 'a1 vec3) list -> nat list -> 'a1 sop -> ('a2 * 'a1 vec3)
+  list
+
+val spec_db_history :
+  'a1 num -> ('a2 * 'a1 vec3) list -> (nat list * 'a1 sop) list -> ('a2 * 'a1
+  vec3) list
+
+val dist0 : 'a1 num -> 'a1 vec3 -> 'a1 vec3 -> 'a1
+
+val resid : 'a1 num -> 'a1 mat3 -> 'a1 vec3 list -> 'a1 vec3 list -> 'a1
+
+val rot_defect : 'a1 num -> 'a1 mat3 -> 'a1 list
+
+val sumsq : 'a1 num -> 'a1 vec3 list -> 'a1
+
+val horn : 'a1 num -> 'a1 mat3 -> 'a1 mat4
+
+val row_zero : 'a1 num -> 'a1 list -> bool
+
+val schur : 'a1 num -> 'a1 -> 'a1 list -> 'a1 list list -> 'a1 list list
+
+val psd_check : 'a1 num -> nat -> 'a1 list list -> bool
+
+val m4rows : 'a1 mat4 -> 'a1 list list
+
+val m3rows : 'a1 mat3 -> 'a1 list list
+
+val shift4 : 'a1 num -> 'a1 -> 'a1 mat4 -> 'a1 mat4
+
+val shift3 : 'a1 num -> 'a1 -> 'a1 mat3 -> 'a1 mat3
+
+val enclosure :
+  'a1 num -> 'a1 vec3 list -> 'a1 vec3 list -> 'a1 vec4 -> 'a1 ->
+  (bool * 'a1) * 'a1
+
+val sph : 'a1 num -> 'a1 -> 'a1 -> 'a1 -> 'a1 -> 'a1 vec3
+
+val unit_axis : 'a1 num -> string -> 'a1 vec3 option
+
+val spec_cov : 'a1 num -> 'a1 vec3 list -> 'a1 mat3
+
+val var_along : 'a1 num -> 'a1 vec3 list -> 'a1 vec3 -> 'a1
+
+val principal_check :
+  'a1 num -> 'a1 vec3 list -> 'a1 vec3 -> 'a1 -> bool * 'a1
+
+val least_check : 'a1 num -> 'a1 vec3 list -> 'a1 vec3 -> 'a1 -> bool * 'a1
+
+val arg0 : nat -> v list -> v
+
+val gQ : nat -> v list -> q
+
+val getV3 : v -> q vec3
+
+val getM3 : v -> q mat3
+
+val getV4 : v -> q vec4
+
+val getM4 : v -> q mat4
+
+val getPts : v -> q vec3 list
+
+val getQs : v -> q list
+
+val getCenter : v -> q vec3 option
+
+val getSel : v -> nat list
+
+val getTable : v -> (z * q vec3) list
+
+val vV3 : q vec3 -> v
+
+val vM3 : q mat3 -> v
+
+val vPts : q vec3 list -> v
+
+val vM4 : q mat4 -> v
+
+val vTable : (z * q vec3) list -> v
+
+val vresPts : q vec3 list res -> v
+
+val vresM3 : q mat3 res -> v
+
+val getOp : v -> q op0 option
+
+val sop_of_op : q op0 -> q sop
+
+val getHistory : v list -> (nat list * q op0) list option
+
+val svd_const : q mat3 -> q mat3 -> q mat3 -> (q mat3 * q vec3) * q mat3
+
+val eig_const : q list -> q mat4 -> q mat4 -> q list * q mat4
+
+val run_geom : string -> v list -> v option
 
 val vresS : string res -> v
 
